@@ -359,7 +359,9 @@ def native_replay(ob, work, ints, dbls, label):
     os.makedirs(nwork, exist_ok=True)
     gen_config(nwork, ob.get("config"))
     try:
-        exe = build_native(ob, nwork)
+        exe = os.path.join(nwork, "replay")
+        if not os.path.exists(exe):
+            exe = build_native(ob, nwork)
     except BuildError as e:
         return False, "native build failed: %s" % e
     vals = os.path.join(nwork, "values.txt")
@@ -377,28 +379,37 @@ def native_replay(ob, work, ints, dbls, label):
     return (p.returncode == 1 and ("REPLAY-FAIL " + label) in p.stdout), out
 
 
-def counterexample(ob, work, label_key, timeout):
-    """re-run with recording + trace; returns dict(values, replayed, native_output)"""
+def counterexamples(ob, work, label_keys, timeout):
+    """one recording + trace run for all failing labels; returns {label: info}"""
     rwork = os.path.join(work, "record")
     os.makedirs(rwork, exist_ok=True)
     gen_config(rwork, ob.get("config"))
     gb = build_goto(ob, rwork, record=ob.get("record", True))
     res = run_cbmc(ob, gb, rwork, timeout, trace=True)
+    out = {}
     for r in res["results"]:
         kind, key = classify(ob, r)
-        if key == label_key and r.get("status") == "FAILURE" and "trace" in r:
+        if key in label_keys and key not in out and r.get("status") == "FAILURE" and "trace" in r:
             ints, dbls = extract_nd(r["trace"])
             info = {"ints": ints, "dbls": dbls, "trace_summary": summarize_trace(r["trace"]),
                     "source": r.get("sourceLocation")}
             if ob.get("native_replay", True):
-                ok, out = native_replay(ob, work, ints, dbls, label_key)
+                ok, txt = native_replay(ob, work, ints, dbls, key)
                 info["replayed"] = ok
-                info["native_output"] = out
+                info["native_output"] = txt
             else:
                 info["replayed"] = None
                 info["native_output"] = "native replay not applicable: " + ob.get("native_replay_reason", "")
-            return info
-    return {"ints": [], "dbls": [], "replayed": False, "native_output": "no trace found in recording run (status %s)" % res["status"]}
+            out[key] = info
+    for key in label_keys:
+        if key not in out:
+            out[key] = {"ints": [], "dbls": [], "replayed": False,
+                        "native_output": "no trace found in recording run (status %s)" % res["status"]}
+    return out
+
+
+def counterexample(ob, work, label_key, timeout):
+    return counterexamples(ob, work, [label_key], timeout)[label_key]
 
 
 # --------------------------------------------------------------------------- one obligation
@@ -457,19 +468,18 @@ def run_obligation(ob, tier, scratch, want_cex=True):
     # vacuity
     must = ["REACH.end"] + ["REACH." + x for x in ob.get("reach", [])]
     vac = [k for k in must if rec["reach"].get(k) != "FAILURE"]
-    vac += [k for k, v in rec["reach"].items() if v != "FAILURE" and k not in vac]
+    # (REACH labels of branches that belong to other obligations sharing the harness function are ignored)
     rec["vacuous"] = vac
     rec["failing"] = failing
     rec["cex"] = {}
     if want_cex:
         known = {(k["obligation"], k["label"]) for k in load_known() if k.get("status") == "known"}
-        for key in failing:
-            if (ob["id"], key) in known:
-                continue
+        need = [key for key in failing if (ob["id"], key) not in known]
+        if need:
             try:
-                rec["cex"][key] = counterexample(ob, work, key, timeout)
+                rec["cex"] = counterexamples(ob, work, need, timeout)
             except BuildError as e:
-                rec["cex"][key] = {"replayed": False, "native_output": "record build failed: %s" % e, "ints": [], "dbls": []}
+                rec["cex"] = {key: {"replayed": False, "native_output": "record build failed: %s" % e, "ints": [], "dbls": []} for key in need}
     if vac:
         rec["verdict"] = "vacuous"
     elif rec["unwind_failed"]:
